@@ -84,7 +84,7 @@ pub fn boot_for(base_seed: u64, index: u64, rng: &mut Rng, roots: &[Model]) -> B
             // through a bijection so that consecutive boots are spread over the table
             let n = synth::lattice_entries();
             let j = index / 8;
-            let e = (j % n).wrapping_mul(48_271) % n; // 48271 is prime and does not divide n = 107 648
+            let e = (j % n).wrapping_mul(48_271) % n; // 48271 is prime and coprime to n = 116 384
             let m = synth::lattice(e, rng).unwrap_or_else(|| synth::synth_sound(rng, (j % synth::THEMES.len() as u64) as usize));
             Boot::Text(m.to_fen(true), pick_route(rng, &m))
         }
